@@ -1,5 +1,6 @@
 CONSTANTS
-  Cases <- X01Quick
+  Groups <- X01QuickGroups
+  CasesOf <- X01Quick
 INIT Init
 NEXT Next
 INVARIANT Conforms
